@@ -49,7 +49,7 @@ SPEC = {
   'assumptions': [
     'length >= 1 (an empty loop is outside the modelled domain)',
     'the constancy check of the broadcast pass and jax.vmap unbatchedness are modelled by their verdict only; when they pass, the constants are the body outputs on the first iteration inputs',
-    'single scope, collections hold flat name->array dicts (no nested modules inside the loop body), no AxisMetadata boxes (C19 covers add_axis/remove_axis), data_transform / _split_transpose not modelled; check_constancy_invariants=False (simple_scan_fn) is modelled: broadcast collections are inputs only there',
+    'single scope, collections hold flat name->array dicts (no nested modules inside the loop body), AxisMetadata boxes are outside the Lean model (Partitioned.add_axis / remove_axis are theorems of C19); a small oracle-only family checks that the body sees the names of the slice and the re-stacked collection the original names, data_transform / _split_transpose not modelled; check_constancy_invariants=False (simple_scan_fn) is modelled: broadcast collections are inputs only there',
     'PRNG counters (fold_in of the per-scope draw counter) are C09; here a key is identified with the stream key it was folded from',
     'lifting over several scopes (a body Module holding bound sub-Modules passed in from outside the lift: get_module_scopes / set_module_scopes / _dedup_scopes) is outside the single-scope Lean model; it is checked against the property oracle only (explicit per-step application of the unlifted body on the same variables)',
   ],
@@ -815,10 +815,15 @@ def check_case(ctx, drv_reply, case, stream):
     what = _diff(want, got)
     # outside the valid stream the naive loop is only binding when the model sides with it
     sides = False
-    if stream != 'valid' and model[0] == 'ok':
+    if stream != 'valid' and model[0] == 'ok' and case.get('mutation') not in ('bcast-dep', 'shared-batched'):
+      # (a body that UPDATES a broadcast / shared collection is outside the property's domain: the broadcast pass
+      # runs first, so the naive loop is not the reference there — model vs implementation only)
       m = model[1]['res']
       mres = {'vars': model_vars_canon(m['vars']), 'carry': [canon_arr(a) for a in m['carry']]}
-      sides = mres['vars'] == want['vars'] and mres['carry'] == want['carry']
+      mys = [canon_arr(a) for a in m['ys']]
+      ints = [k for k, a in enumerate(mys) if all(isinstance(v, int) for v in a['d'])]
+      sides = (mres['vars'] == want['vars'] and mres['carry'] == want['carry'] and len(mys) == len(want['ys'])
+               and all(mys[k] == want['ys'][k] for k in ints))
     if stream == 'valid' or sides:
       ctx.violation(f"{kind}-differs-from-loop:{what.split('/')[0]}", f'{kind} result differs from the explicit Python loop in {what}: loop={_short(want, what)} impl={_short(got, what)}', dict(case, want=want, got=got))
       return
@@ -1967,6 +1972,92 @@ def check_sibling_case(ctx, case):
 
 
 # ------------------------------------------------------------------------------------------------
+# axis collections of nn.Partitioned boxes: the slice the body sees is the box with the entry AT THE AXIS taken
+# out of its names, the re-stacked collection carries the original names (add_axis / remove_axis are C19's
+# theorems; here only the C06 clause "one slice per iteration along the declared axis", for values and names)
+# ------------------------------------------------------------------------------------------------
+
+_BOX_SEEN = []
+
+
+def _boxed_cell(names, d):
+  names = tuple(names)
+
+  class BoxCell(nn.Module):
+    @nn.compact
+    def __call__(self, c, x):
+      w = self.param('w', nn.with_partitioning(lambda k: jnp.zeros((d, d), jnp.int32), names))
+      acc = self.variable('state', 'acc', nn.with_partitioning(lambda: jnp.zeros((d, d), jnp.int32), names))
+      _BOX_SEEN.append(('w', tuple(self.variables['params']['w'].names)))
+      _BOX_SEEN.append(('acc', tuple(self.variables['state']['acc'].names)))
+      y = x @ w + c
+      acc.value = acc.value * 2 + w
+      return c + 1, y
+
+  return BoxCell
+
+
+def gen_boxed_case(rng):
+  return {'kind': 'boxed', 'lift': rng.choice(['scan', 'vmap']), 'axis': rng.choice([0, 1, 2, -1, 2, -1]),
+          'pname': rng.choice(['layers', None, None]), 'names': rng.choice([[None, 'model'], ['data', None], [None, None], ['data', 'model']]),
+          'd': 2, 'T': rng.choice([2, 3]), 'vseed': rng.randrange(10 ** 6)}
+
+
+def check_boxed_case(ctx, case):
+  case = {k: v for k, v in case.items() if k != 'origin'}
+  ctx.case(case)
+  ctx.count('boxed_family', f"{case['lift']}/axis {case['axis']}/partition name {case['pname']}")
+  d, T, ax, pname = case['d'], case['T'], case['axis'], case['pname']
+  names = tuple(case['names'])
+  k = norm_ax(ax, 3)
+  st_names = list(names)
+  st_names.insert(k, pname)
+  r = np.random.RandomState(case['vseed'])
+  sh = [d, d]
+  sh.insert(k, T)
+  w = r.randint(-2, 3, size=sh).astype(np.int32)
+  acc = r.randint(-2, 3, size=sh).astype(np.int32)
+  xs = r.randint(-2, 3, size=(T, d)).astype(np.int32)
+  c0 = r.randint(-2, 3, size=(d,)).astype(np.int32)
+  Cell = _boxed_cell(names, d)
+  box = lambda a, nm: nn.Partitioned(jnp.asarray(a), tuple(nm))
+  stacked = {'params': {'w': box(w, st_names)}, 'state': {'acc': box(acc, st_names)}}
+  kw = dict(variable_axes={'params': ax, 'state': ax}, split_rngs={'params': False}, metadata_params={nn.PARTITION_NAME: pname})
+  del _BOX_SEEN[:]
+  try:
+    if case['lift'] == 'scan':
+      (c, ys), upd = nn.scan(Cell, in_axes=0, out_axes=0, **kw)().apply(stacked, jnp.asarray(c0), jnp.asarray(xs), mutable=['state'])
+    else:
+      (c, ys), upd = nn.vmap(Cell, in_axes=(None, 0), out_axes=(None, 0), **kw)().apply(stacked, jnp.asarray(c0), jnp.asarray(xs), mutable=['state'])
+    a_out = flax_core.unfreeze(upd)['state']['acc']
+    impl = ('ok', {'c': arr_json(c), 'ys': arr_json(ys), 'acc': arr_json(a_out.value), 'acc_names': list(a_out.names),
+                   'seen': sorted(set(_BOX_SEEN), key=str)})
+  except Exception as e:
+    impl = classify(e)
+  _housekeeping()
+  # explicit loop on the slices: value slice i along the axis, names with the entry AT the axis removed
+  c = jnp.asarray(c0)
+  ys, accs = [], []
+  for i in range(T):
+    sl = {'params': {'w': box(np.take(w, i, axis=k), names)}, 'state': {'acc': box(np.take(acc, i, axis=k), names)}}
+    (c_i, y), upd = Cell().apply(sl, c if case['lift'] == 'scan' else jnp.asarray(c0), jnp.asarray(xs[i]), mutable=['state'])
+    if case['lift'] == 'scan':
+      c = c_i
+    ys.append(np.asarray(y))
+    accs.append(np.asarray(flax_core.unfreeze(upd)['state']['acc'].value))
+  c_want = c if case['lift'] == 'scan' else jnp.asarray(c0) + 1
+  want = {'c': arr_json(c_want), 'ys': arr_json(np.stack(ys)), 'acc': arr_json(np.stack(accs, axis=k)), 'acc_names': list(st_names),
+          'seen': sorted({('w', names), ('acc', names)}, key=str)}
+  if impl[0] == 'err':
+    ctx.violation(f"{case['lift']}-boxed-raises-where-loop-works", f'nn.{case["lift"]} over nn.Partitioned boxes (axis {ax}, names {st_names}, partition name {pname!r}) raised {impl[1]}; the per-index loop on the slices works', case)
+    return
+  got = impl[1]
+  if got != want:
+    diff = [f for f in want if got[f] != want[f]]
+    ctx.violation(f"{case['lift']}-boxed-differs-from-loop", f'nn.{case["lift"]} over nn.Partitioned boxes (axis {ax}, stacked names {st_names}, partition name {pname!r}) differs from the per-index loop in {diff}: lifted={ {f: got[f] for f in diff} } loop={ {f: want[f] for f in diff} }'[:600], case)
+
+
+# ------------------------------------------------------------------------------------------------
 # entry points
 # ------------------------------------------------------------------------------------------------
 
@@ -2101,6 +2192,8 @@ def run(ctx):
     check_submodule_case(ctx, gen_submodule_case(rng))
   for _ in range(8 if not thorough else 120):
     check_sibling_case(ctx, gen_sibling_case(rng))
+  for _ in range(10 if not thorough else 120):
+    check_boxed_case(ctx, gen_boxed_case(rng))
   n_scan, n_vmap, n_remat, n_wild = (62, 32, 14, 32) if not thorough else (1200, 600, 200, 600)
   cases = []
   for _ in range(n_scan):
@@ -2147,6 +2240,8 @@ def _run_case(ctx, drv, obj):
     check_submodule_case(ctx, case)
   elif kind == 'sibling':
     check_sibling_case(ctx, case)
+  elif kind == 'boxed':
+    check_boxed_case(ctx, case)
   else:
     ctx.notes.append(f'unknown corpus case kind {kind}')
 
